@@ -47,6 +47,76 @@ def rule_certificate(ratio, step, order, T, w):
     return max(res), 64 * Fraction(1, 2 ** 53) * norm1 * (T + 1)
 
 
+class GQ:
+    """Gaussian rationals (exact complex arithmetic for the certificate of complex ratios)."""
+    __slots__ = ('re', 'im')
+
+    def __init__(self, re, im=0):
+        self.re, self.im = Fraction(re), Fraction(im)
+
+    def __mul__(self, o):
+        return GQ(self.re * o.re - self.im * o.im, self.re * o.im + self.im * o.re)
+
+    def __add__(self, o):
+        return GQ(self.re + o.re, self.im + o.im)
+
+    def __sub__(self, o):
+        return GQ(self.re - o.re, self.im - o.im)
+
+    def inv(self):
+        d = self.re * self.re + self.im * self.im
+        return GQ(self.re / d, -self.im / d)
+
+    def pow(self, k):
+        out, b = GQ(1), self
+        while k:
+            if k & 1:
+                out = out * b
+            b = b * b
+            k >>= 1
+        return out
+
+    def abs1(self):
+        return abs(self.re) + abs(self.im)
+
+
+def complex_rule_certificate(ratio, step, order, T, w):
+    rho = GQ(float(ratio.real), float(ratio.imag)).inv()
+    W = [GQ(float(np.real(v)), float(np.imag(v))) for v in w]
+    res = Fraction(0)
+    for c in range(T + 1):
+        acc = GQ(0)
+        for i in range(T + 1):
+            col = GQ(1) if c == 0 else rho.pow(i * (step * (c - 1) + order))
+            acc = acc + W[i] * col
+        if c == 0:
+            acc = acc - GQ(1)
+        res = max(res, acc.abs1())
+    norm1 = sum(v.abs1() for v in W)
+    return res, 256 * Fraction(1, 2 ** 53) * norm1 * (T + 1)
+
+
+def complex_certificates(ctx, N):
+    """Always run: rules for complex ratios r*exp(i*theta) satisfy w.R = e_0 (exact Gaussian rationals)."""
+    from numdifftools.extrapolation import Richardson
+    rng = ctx.rng(21)
+    for k in range(N):
+        r, th = float(rng.uniform(1.5, 8)), float(rng.uniform(0.1, 3.0))
+        ratio = complex(r * np.cos(th), r * np.sin(th))
+        step, order, T = int(rng.integers(1, 5)), int(rng.integers(1, 5)), int(rng.integers(1, 4))
+        w = Richardson(step_ratio=ratio, step=step, order=order, num_terms=T).rule()
+        res, bound = complex_rule_certificate(ratio, step, order, T, w)
+        ctx.count(1, ('complex-rule', T, step))
+        if res > bound and res < Fraction(1, 10 ** 6):
+            ctx.brk('oracle-certificate', 'rule for a complex ratio fails its residual certificate', {'ratio': [ratio.real, ratio.imag], 'step': step, 'order': order, 'terms': T, 'residual': float(res)})
+        elif res >= Fraction(1, 10 ** 6):
+            # far beyond rounding: the weights do not annihilate the modelled powers at all
+            if ctx.violation('complex-weights', 'Richardson(step_ratio=%r, step=%d, order=%d, num_terms=%d).rule() does not satisfy w.R = e_0: residual %.3g' % (ratio, step, order, T, float(res)),
+                             {'ratio': [ratio.real, ratio.imag], 'step': step, 'order': order, 'terms': T, 'weights': [[float(np.real(v)), float(np.imag(v))] for v in w],
+                              'how': 'Richardson(step_ratio=complex(*ratio), step=..., order=..., num_terms=...).rule(); check sum_i w_i (1/ratio)**(i*(order+step*j)) for j < num_terms'}):
+                return
+
+
 def search(ctx, N, complex_too=True):
     """Property-level sweep on the implementation: exact rationals as oracle."""
     from numdifftools.extrapolation import Richardson
@@ -215,6 +285,7 @@ def run(ctx):
         ctx.brk('oracle-certificate', 'pinv row fails its residual certificate w.R = e_0', c)
     ctx.cov['traces_validated_against_impl'] = len(ccases) + len(rcases)
     ctx.cov['correspondence_disagreements'] = nbad
+    complex_certificates(ctx, ctx.n(60, 600))
     if ctx.broken or ctx.thorough:
         search(ctx, ctx.n(300, 3000))
     ctx.assumptions += ['the rule (first row of pinv of the r-matrix) is an oracle: its residual |w.R - e_0| is certified in exact rationals each run; numerically singular configurations are counted and excluded (the property excludes nothing here, but pinv truncation is LAPACK\'s)',
